@@ -435,6 +435,11 @@ func (e *Engine) freshCallResult(st *State, call *ssa.Call) {
 // conservativeCall: the callee is not evaluated (recursion / depth): all memory
 // reachable may change, results are unknown.
 func (e *Engine) conservativeCall(fr *frame, st *State, call *ssa.Call, f *ssa.Function, args []ssa.Value) {
+	for _, a := range args {
+		if ad, ok := e.addrOf(st, a); ok {
+			e.havocObject(st, ad.Obj)
+		}
+	}
 	e.havocAllMemory(st)
 	e.freshCallResult(st, call)
 }
@@ -586,13 +591,79 @@ func (e *Engine) external(fr *frame, st *State, in *ssa.Call, f *ssa.Function, a
 func (e *Engine) reflectCall(fr *frame, st *State, in *ssa.Call, name string, args []ssa.Value) {
 	switch {
 	case strings.HasPrefix(name, "(reflect.Value).Set"), name == "(reflect.Value).Call":
-		e.havocAllMemory(st)
+		// A reflect setter writes the memory its Value designates (the pointee
+		// graph of read's argument, or memory made by reflect.New). The XR codec
+		// rule B-RFL/type-graph (checked by the property code with go/types)
+		// shows that this graph contains no packetBuffer, so objects of that type
+		// keep their cells.
+		e.havocMemoryExcept(st, e.SpareOnReflectSet)
+		e.ReflectSets++
 	}
 	e.freshCallResult(st, in)
-	if name == "(reflect.Value).Len" || name == "(reflect.Value).NumField" {
+	switch name {
+	case "(reflect.Value).Len", "(reflect.Value).NumField":
 		st.Assume(Var(e.atomOf(in)))
+	}
+	if name == "(reflect.Value).NumField" && len(args) > 0 {
+		// NumField depends only on the type of the Value: calls on the same SSA value agree
+		key := "pure:NumField:" + e.vid(args[0])
+		a := e.cellAtomOf(key, Range{0, 1 << 16, true, true})
+		if _, seen := e.pureSeen[key]; !seen {
+			if e.pureSeen == nil {
+				e.pureSeen = map[string]bool{}
+			}
+			e.pureSeen[key] = true
+		}
+		st.Bind(e.atomOf(in), Var(a))
+	}
+	switch name {
+	case "(reflect.Value).Type", "reflect.TypeOf", "invoke reflect.Type.Elem":
+		st.nonnil[e.vid(in)] = true
 	}
 	if e.ReflectRule != nil {
 		e.ReflectRule(e, fr, st, in, name)
+	}
+}
+
+// havocMemoryExcept forgets every memory cell except those of objects whose
+// type name is in spare.
+func (e *Engine) havocMemoryExcept(st *State, spare map[string]bool) {
+	keep := func(key string) bool {
+		obj := key
+		if i := strings.IndexAny(key, ".#["); i >= 0 {
+			obj = key[:i]
+		}
+		if spare != nil && spare[e.objType[obj]] {
+			return true
+		}
+		// objects whose address never escapes cannot be reached by unknown code
+		if strings.HasPrefix(obj, "A") {
+			if v, ok := e.vidOwner("v" + obj[1:]); ok {
+				if al, ok := v.(*ssa.Alloc); ok && !addressEscapes(al, e.Pkg, 0) {
+					return true
+				}
+			}
+		}
+		return false
+	}
+	for key, a := range e.cellAtom {
+		if strings.HasPrefix(key, "pure:") || keep(key) {
+			continue
+		}
+		if mentionsAtom(st, a) {
+			st.Forget(a)
+		}
+	}
+	for _, m := range []map[string]bool{st.nonnil, st.isnil, st.elemsNN} {
+		for k := range m {
+			if !strings.HasPrefix(k, "v") && !strings.HasPrefix(k, "E") && !keep(k) {
+				delete(m, k)
+			}
+		}
+	}
+	for k := range st.ptr {
+		if !strings.HasPrefix(k, "v") && !keep(k) {
+			delete(st.ptr, k)
+		}
 	}
 }
